@@ -56,7 +56,8 @@ def main():
                     shutil.copy(s, d)
             r = subprocess.run(["patch", "-p1", "-s", "-i", patch], cwd=tmp, capture_output=True)
             if r.returncode:
-                rows.append((name, "PATCH-FAILED", r.stdout.decode()[-200:] + r.stderr.decode()[-200:]))
+                rows.append((name, "PATCH-FAILED", (r.stdout.decode()[-120:] + r.stderr.decode()[-120:]).replace("\n", " ")))
+                print("%-40s %-12s %s" % rows[-1], flush=True)
                 continue
             env = dict(os.environ, VERIF_REPO=tmp, VERIF_TIER=tier)
             tests = ""
